@@ -165,6 +165,10 @@ def cases(rng, tier, shard, nshards):
                 yield MEMO, permuted(x, order)
         if k % 4 == 0:
             yield E2E, tplgen.gen_template(rng)
+        if k % 10 == 0:
+            ch = tplgen.gen_chain_template(rng)         # long chains of conditions (depth guards, deep recursion, declaration order)
+            yield E2E, ch
+            yield MEMO, ch
         if k % 2 == 0:
             yield SEQ, {"template": x["template"], "extras": [x["extra"], tplgen.vary_extra(rng, x), tplgen.vary_extra(rng, x)]}
             yield SEQ, tplgen.gen_sensitive_sequence(rng)
